@@ -90,5 +90,188 @@ def run(model, tier):
     res.rule_text = 'instance = one sibling pair / one typed function; non-trivial = normal forms with at least two atoms'
     res.trusted_base = ['CPython ast', 'sympy FracField', 'builder inlining of the wave-curve helpers']
     mirror_pairs(model, res)
+    classifier_mirror(model, res)
+    side_consistency(model, res)
+    side_tests(model, res)
     c09_sym.check(model, res, tier)
     return res
+
+
+# ---------------------------------------------------------------------------
+# R9.1b  left/right bookkeeping of the Riemann drivers
+
+SIDE = {'rl': 'l', 'pl': 'l', 'ul': 'l', 'gl': 'l', 'al': 'l', 'el': 'l',
+        'rr': 'r', 'pr': 'r', 'ur': 'r', 'gr': 'r', 'ar': 'r', 'er': 'r'}
+STATE_ARGS = {'p', 'r', 'u', 'g', 'p0', 'r0', 'u0', 'g0'}
+
+
+def data_side(node):
+    """Sides (l / r) of the initial-state parameters the VALUE is computed from
+    (index expressions and branch conditions are not followed: a right-going
+    table selected by a star-state index is still a right-side quantity)."""
+    sides, seen, stack = set(), set(), [node]
+    while stack:
+        n = stack.pop()
+        if n is None or n.nid in seen:
+            continue
+        seen.add(n.nid)
+        if n.kind == 'param' and n.val in SIDE:
+            sides.add(SIDE[n.val])
+            continue
+        if n.ho is not None:
+            continue            # star pressure etc.: depends on both sides by nature
+        if n.kind == 'phi':
+            stack.extend(n.args[1:])
+        elif n.kind == 'sub':
+            stack.append(n.args[0])
+        elif n.kind == 'store':
+            stack.extend([n.args[0], n.args[2]])
+        elif n.kind == 'call' and n.val in ('numpy.where',) and len(n.args) == 3:
+            stack.extend(n.args[1:])
+        elif n.kind == 'call' and n.val in ('numpy.interp',) and len(n.args) >= 3:
+            stack.append(n.args[2])
+        else:
+            stack.extend(a for a in n.args if a is not None)
+            stack.extend(n.kw.values())
+    return sides
+
+
+def side_consistency(model, res):
+    """Every call of a wave-curve / state helper made by the two Riemann drivers
+    receives its (p, r, u, g) state from ONE side: e.g. shock_velocity(px, pr, rr, ur, gr)."""
+    from ..vg import Closure
+    n_calls = 0
+    for cname in ('exactpack.solvers.riemann.riemann:RiemannIGEOS', 'exactpack.solvers.riemann.riemann:RiemannGenEOS'):
+        cls = model.get_class(cname)
+        fi = cls.methods.get('driver')
+        if fi is None:
+            raise AnalysisError('%s.driver vanished' % cname)
+        b = Builder(model)
+        b.frame = Frame(None, cls.module, {}, None)
+        inst = b.symbolic_obj(cls, STATE + OTHER)
+        xu = b.mk('input', 'x_user')
+        clo = Closure(fi, fi.node, None, self_node=inst, cls=cls, module=cls.module)
+        b.call_closure(clo, [xu], {}, fi.node)
+        for at, callee, args, caller in b.call_log:
+            if callee.module.name != UTILS or caller is None:
+                continue
+            if caller is not fi and getattr(caller, 'parent', None) is not fi:
+                continue
+            names = [a.arg for a in callee.node.args.args]
+            per_arg = {}
+            for nm, a in zip(names, args):
+                if nm in STATE_ARGS:
+                    s = data_side(a)
+                    if s:
+                        per_arg[nm] = s
+            if len(per_arg) < 2:
+                continue
+            n_calls += 1
+            res.obligations += 1
+            res.evaluations += 1
+            res.nontrivial += 1
+            pure = {nm: next(iter(s)) for nm, s in per_arg.items() if len(s) == 1}
+            if len(set(pure.values())) > 1:
+                res.add(Finding(PROP, 'C09.side-consistency', fi.module.relpath, caller.qualname if caller.parent is None else fi.qualname,
+                                '%s: %s(%s)' % (cls.name, callee.name, ', '.join('%s:%s' % (k, pure[k]) for k in sorted(pure))),
+                                "%s.driver calls %s with a state whose components come from different sides (%s): the wave "
+                                "on one side is computed with the other gas's data, which breaks mirror symmetry (and the "
+                                "EOS link / agreement with the other solver) whenever the two states differ in that component"
+                                % (cls.name, callee.name, ', '.join('%s from the %s state' % (k, {'l': 'left', 'r': 'right'}[v])
+                                                                   for k, v in sorted(pure.items()))),
+                                line=getattr(at, 'lineno', 0), construct=src_of_call(at)))
+            else:
+                res.discharged += 1
+    if n_calls < 20:
+        raise AnalysisError('only %d helper calls with a one-sided state recognised in the Riemann drivers (confirmed >= 20)' % n_calls)
+    res.extra['riemann_helper_calls_checked'] = n_calls
+
+
+def src_of_call(at):
+    import ast as _ast
+    try:
+        return _ast.unparse(at)[:120]
+    except Exception:
+        return 'call'
+
+
+def side_tests(model, res):
+    """The repo's idiom for 'is this the left state?' compares pressure, density AND velocity with the
+    stored left state (5 sites); a test that compares fewer components mistakes a right state with equal
+    p and rho for the left one."""
+    import ast as _ast
+    mod = model.modules[UTILS]
+    sites = 0
+    for fi in mod.functions.values():
+        for st in _ast.walk(fi.node):
+            if isinstance(st, _ast.IfExp):
+                comps = {}
+                for c in _ast.walk(st.test):
+                    if isinstance(c, _ast.Compare) and len(c.ops) == 1 and isinstance(c.ops[0], _ast.Eq):
+                        r = c.comparators[0]
+                        if isinstance(r, _ast.Attribute) and isinstance(r.value, _ast.Name) and r.value.id == 'inst' \
+                                and r.attr in ('pl', 'rl', 'ul', 'pr', 'rr', 'ur'):
+                            comps[r.attr] = c
+                if not comps:
+                    continue
+                sites += 1
+                res.obligations += 1
+                res.evaluations += 1
+                side = {a[-1] for a in comps}
+                kinds = {a[0] for a in comps}
+                if len(side) == 1 and kinds == {'p', 'r', 'u'}:
+                    res.discharged += 1
+                else:
+                    res.add(Finding(PROP, 'C09.side-test', fi.module.relpath, fi.qualname,
+                                    '%s: side test compares %s' % (fi.name, sorted(comps)),
+                                    "%s decides whether a state is the %s one by comparing only %s with the stored state; "
+                                    "every sibling compares pressure, density and velocity: two sides with equal %s are "
+                                    "confused and the wave gets the wrong direction (mirror symmetry broken)"
+                                    % (fi.name, 'left' if side == {'l'} else 'stored', sorted(comps),
+                                       ' and '.join(sorted(kinds))), line=st.lineno, construct=src_of_call(st.test)))
+    if sites < 5:
+        raise AnalysisError('only %d side tests found in riemann/utils.py (confirmed: 5)' % sites)
+
+
+def classifier_mirror(model, res):
+    """The wave-pattern boundaries u_NCS / u_NCR are the mirror images of u_SCN / u_RCN:
+    (u_NCS(pr) - ul) of a problem equals (u_SCN(pr') - ul') of the mirrored problem."""
+    pairs = [('u_SCN', 'u_NCS'), ('u_RCN', 'u_NCR')]
+    cls = model.get_class(RIEMANN)
+    mod = model.modules[UTILS]
+    for fl, fr in pairs:
+        vals = []
+        for fname, mirrored in ((fr, False), (fl, True)):
+            b = Builder(model)
+            b.frame = Frame(None, mod, {}, None)
+            pre = mirrored_prefill(b) if mirrored else {}
+            inst = b.symbolic_obj(cls, STATE + OTHER, pre)
+            h = b.heap[inst.val.oid]
+            # al, ar as the constructor defines them
+            ss = model.get_func('%s:sound_speed' % UTILS)
+            for side in ('l', 'r'):
+                b.frame = Frame(None, mod, {}, None)
+                av = b.run_function(ss, [b.get_attr(inst, 'p' + side), b.get_attr(inst, 'r' + side),
+                                         b.get_attr(inst, 'g' + side), inst])
+                b.heap[inst.val.oid]['a' + side] = av     # (the heap dict is replaced at every join)
+            b.frame = Frame(None, mod, {}, None)
+            px = b.get_attr(inst, 'pr')
+            fi = model.get_func('%s:%s' % (UTILS, fname))
+            r = b.run_function(fi, [px, inst])
+            ul = b.get_attr(inst, 'ul')
+            vals.append((b, b.mk('binop', '-', [r, ul])))
+        ev = NFEval(STATE + OTHER)
+        n1, n2 = ev.nf(vals[0][1]), ev.nf(vals[1][1])
+        res.obligations += 1
+        res.evaluations += 1
+        res.nontrivial += 1
+        same, w = zero_everywhere(ev, ev.add(n1, n2, -1))
+        fi = model.get_func('%s:%s' % (UTILS, fr))
+        if same:
+            res.discharged += 1
+            res.sample({'rule': 'C09.mirror', 'pair': '%s(pr) - ul == M(%s(pr) - ul)' % (fr, fl)}, limit=12)
+        else:
+            res.add(Finding(PROP, 'C09.mirror', fi.module.relpath, fi.qualname, 'classifier M(%s) vs %s' % (fl, fr),
+                            "wave-pattern boundary %s is not the mirror image of %s: the mirrored Riemann problem is "
+                            "classified into a different wave pattern for some states (difference %s)"
+                            % (fr, fl, w[1].key()[:200] if w else '?'), line=fi.node.lineno, construct='def %s' % fr))
